@@ -166,6 +166,8 @@ pub(crate) mod verif_c01 {
     // ---- instrumented inner serializer: logs every call, serializes nested values into itself ---------------
     pub struct Sink;
     pub struct Comp;
+    /// what the instrumented inner serializer reports from is_human_readable()
+    pub static mut HUMAN: bool = true;
     impl Serializer for Sink {
         type Ok = ();
         type Error = E;
@@ -233,6 +235,7 @@ pub(crate) mod verif_c01 {
         fn serialize_map(self, len: Option<usize>) -> Result<Comp, E> { log(Ev::Map(len)); Ok(Comp) }
         fn serialize_struct(self, name: &'static str, len: usize) -> Result<Comp, E> { log(Ev::Struct(name.len(), len)); Ok(Comp) }
         fn serialize_struct_variant(self, _: &'static str, i: u32, _: &'static str, len: usize) -> Result<Comp, E> { log(Ev::StructVariant(i, len)); Ok(Comp) }
+        fn is_human_readable(&self) -> bool { unsafe { HUMAN } }
     }
     impl SerializeSeq for Comp {
         type Ok = ();
@@ -520,6 +523,18 @@ pub(crate) mod verif_c01 {
         assert!(SerializeStructVariant::end(s).is_ok());
         assert!(n() == 1 && at(0) == Ev::End);
         kani::cover!(true);
+    }
+
+    // The wrapper must be transparent for the human-readable flag: types such as uuid choose their
+    // representation from it, and serializer and deserializer (de::Override forwards it) have to agree at
+    // every nesting level for the round trip to hold (Smile reports false).
+    #[kani::proof]
+    fn is_human_readable_forwarded() {
+        let h: bool = kani::any();
+        unsafe { HUMAN = h };
+        assert!(Serializer::is_human_readable(&Override::<_, VB>::new(Sink)) == h);
+        kani::cover!(h);
+        kani::cover!(!h);
     }
 
     // ---- D. default hooks of trait Behavior are the identity ----------------------------------------------------
